@@ -31,6 +31,11 @@ import (
 const (
 	DefaultRefreshWindow  = 10 * time.Second
 	DefaultRefreshTimeout = 5 * time.Second
+
+	// maxPendingEvents is the number of events the control connection can hand over without waiting. Events are
+	// delivered by the connection's read loop; if it had to wait while the cluster is querying the system tables on
+	// that same connection (connecting, refreshing hosts) the query's response would never be read.
+	maxPendingEvents = 1024
 )
 
 type Event interface {
@@ -144,7 +149,7 @@ func ConnectCluster(ctx context.Context, config ClusterConfig) (*Cluster, error)
 		controlConn:      nil,
 		hosts:            nil,
 		currentHostIndex: 0,
-		events:           make(chan *frame.Frame),
+		events:           make(chan *frame.Frame, maxPendingEvents),
 		addListener:      make(chan ClusterListener),
 		listeners:        make([]ClusterListener, 0),
 	}
